@@ -3,6 +3,7 @@ pub mod alloc;
 pub mod carriers;
 pub mod checks;
 pub mod e2e;
+pub mod fuzzing;
 pub mod gen_frames;
 pub mod gen_values;
 pub mod glue;
